@@ -59,6 +59,8 @@ def build_meta_options(ms):
     opts = {}
     if meta.get('db_table'):
         opts['db_table'] = meta['db_table']
+    if 'managed' in meta:
+        opts['managed'] = meta['managed']
     if meta.get('unique_together'):
         opts['unique_together'] = [tuple(e) for e in meta['unique_together']]
     if meta.get('index_together'):
